@@ -75,7 +75,7 @@ fn nontrivial(c: &DetCase) -> bool {
 /// (different hash seeds, different address layout); all transcripts must agree.
 fn c20_run(ctx: &ShardCtx) -> ShardResult {
     let mut stats = Stats::default();
-    let cases = ctx.tier.pick(3000u32, 12_000u32);
+    let cases = ctx.tier.pick(3000u32, 60_000u32);
     let batch = 200usize;
     let max_ops = ctx.tier.pick(40, 120);
     // generate the cases with proptest's runner so the run is a function of the seed
